@@ -4,6 +4,14 @@ from contracts.encoder_c import CallEncodeTask, EncodeTask
 def add(run, tier):
     # "a message that cannot be sent as such writes nothing": send() relies on every encoder failure being a ValueError
     run.add(CallEncodeTask('C19'), EncodeTask('C19'))
+    # "writes exactly the packets the encoder produces for that message": the packet list a send() iterates over while it is
+    # suspended in drain() must be its own - the segmentation contract with its ownership clause (also part of C03) ...
+    from props.C03 import EncodeFastTask
+    run.add(EncodeFastTask([0, 1, 6, 7, 13, 14, 43, 223], prop='C19'))
+    # ... and the packet builders of the three binary / text formats (also part of C06)
+    from contracts.wire import EncoderTask
+    for fmt in ('ebyte', 'usb', 'yd'):
+        run.add(EncoderTask(fmt, prop='C19'))
     run.explanation = ('Deductive per-coroutine contracts of send() for the four client classes under dependency contracts of asyncio (assumed): the packets written are the '
                        'encoder packets, in order, on the connection writer; at every suspension inside drain() between two packets of one message a lock that every send() takes is held '
                        '(contiguity for all interleavings: rely/guarantee at await); an unsendable message (encoder ValueError, or a format without an encoder) writes nothing, changes no '
